@@ -627,40 +627,50 @@ KNOWN_CLASSES["syllabic-concat"] = (
 def stch_attribution(s, o):
     """is this DIFF of the concat redistribution experiment the documented upstream behaviour of apply_stch — and nothing else?
     Decided from the concrete cut and the concrete difference, not from the text alone:
-      (a) the text has a stretching mark (PCM);
+      (a) the text has a mark the font stretches (a PCM character whose cluster holds several glyphs in the whole result);
       (b) NO cut lies inside a span apply_stch flags: for a mark at i, followed by further marks up to j and the word [j, e),
-          none of the boundaries i+1 .. e-1 is a segment start (a cut there means the flag apply_stch owes is missing);
+          none of the boundaries i+1 .. e-1 is a segment start (a cut there means the flag apply_stch owes is missing) —
+          except in front of default ignorables that end the word (deleted before apply_stch runs when the font has no space);
       (c) the redistribution gave some mark a different stretch context (neighbouring marks + following word) than it has in
           the whole text — text moved next to a mark / its word — and
       (d) every glyph that differs belongs to the cluster of such a mark."""
     if not o or not o.get("pieces") or o.get("recon") is None or not o.get("whole"):
         return False
     text, n = s.text, len(s.text)
-    marks = [i for i, ch in enumerate(text) if ord(ch) in PCM]
+    whole_cl = sorted({g[1] for g in o["whole"]})
+
+    def out_cluster(i):
+        below = [c for c in whole_cl if c <= s.clusters[i]]
+        return below[-1] if below else None
+
+    # a mark the font really stretches: a PCM character whose cluster holds several glyphs (the tiles) in the whole result
+    marks = [i for i, ch in enumerate(text) if ord(ch) in PCM and sum(1 for g in o["whole"] if g[1] == out_cluster(i)) >= 2]
     if not marks:
         return False
+    stretched = {text[i] for i in marks}
     segs = sorted(o["pieces"])
     cuts = {a for a, b in segs if a > 0}
 
     def context(t, i):
         a = i
-        while a > 0 and ord(t[a - 1]) in PCM: a -= 1
+        while a > 0 and t[a - 1] in stretched: a -= 1
         j = i + 1
-        while j < len(t) and ord(t[j]) in PCM: j += 1
+        while j < len(t) and t[j] in stretched: j += 1
         e = j
-        while e < len(t) and is_word_char(t[e]): e += 1
+        while e < len(t) and t[e] not in stretched and is_word_char(t[e]): e += 1
         return a, j, e
 
     for i in marks:
         _, _, e = context(text, i)
-        if any(i < p < e for p in cuts):
+        # default ignorables that END the word may have been deleted (hide_default_ignorables runs before apply_stch):
+        # a cut in front of them is a cut at the end of the word; kept ones are flagged like any word glyph
+        if any(i < p < e and not all(is_default_ignorable_cp(ord(c)) for c in text[p:e]) for p in cuts):
             return False
     seg_of = {}
     for j, (a, b) in enumerate(segs):
         for k in range(a, b):
             seg_of[k] = j
     par = {0: [k for k in range(n) if seg_of.get(k, -1) % 2 == 0], 1: [k for k in range(n) if seg_of.get(k, -1) % 2 == 1]}
-    whole_cl = sorted({g[1] for g in o["whole"]})
     changed = set()
     for i in marks:
         if i not in seg_of:
@@ -670,9 +680,8 @@ def stch_attribution(s, o):
         a, j, e = context(text, i)
         a2, j2, e2 = context(t2, idx.index(i))
         if text[a:e] != t2[a2:e2] or i - a != idx.index(i) - a2:
-            below = [c for c in whole_cl if c <= s.clusters[i]]
-            if below:
-                changed.add(below[-1])
+            if out_cluster(i) is not None:
+                changed.add(out_cluster(i))
     if not changed:
         return False
     per = lambda gl: {c: [(g[0],) + tuple(g[3:]) for g in gl if g[1] == c] for c in {g[1] for g in gl}}
